@@ -87,7 +87,20 @@ def gen_cases(tier, seed):
         k += 1
     for i in range(nt):
         rng = intuniv.rng_for(seed, "C05t", i)
-        yield {"id": k, "kind": "table", "table": table.random_table(rng),
+        tb = table.random_table(rng)
+        crng = intuniv.rng_for(seed, "C05t/cycles", i)
+        if crng.random() < 0.45:
+            # overlapping directed cycles of one-way single-child rows (a short cycle merged
+            # first, a longer one closing through an absorbed label), twin rows
+            for _ in range(crng.randint(1, 3)):
+                table.add_one_way_cycle(crng, tb)
+            if crng.random() < 0.4:
+                table.add_twin_unary_rows(crng, tb)
+            if crng.random() < 0.6:
+                if crng.random() < 0.5:  # few other rules: the cycle decides the answer
+                    tb["rows"] = [r for r in tb["rows"] if crng.random() < 0.4]
+                table.add_overlapping_cycles(crng, tb)
+        yield {"id": k, "kind": "table", "table": tb, "poll_every": crng.choice((1, 1, 2, 3, 5, 1000)),
                "iterative": rng.random() < 0.35, "db": rng.choice(("base", "base", "forget")),
                "root": 0, "sets": rng.choice((1, 2)), "rng_seed": rng.randrange(10 ** 6),
                "smallest": rng.random() < 0.5}
@@ -264,7 +277,15 @@ def run_table(case):
     s = CombinatorialSpecificationSearcher(table.Lab(case["root"]), pack, ruledb=db)
     answers = set()
 
+    every = int(case.get("poll_every", 1))
+    seen_packets = [0]
+
     def poll(searcher, st):
+        # has_specification is polled after every `every`-th packet: with gaps, several rules
+        # (e.g. several edges of overlapping cycles) arrive between two cycle detections
+        seen_packets[0] += 1
+        if st is not None and seen_packets[0] % every:
+            return
         answers.add(bool(searcher.has_specification()))  # postcondition evaluated here
 
     m_search.attach(s, None, poll)
@@ -275,6 +296,7 @@ def run_table(case):
         except StopIteration:
             break
         s._expand(s.classdb.get_class(wp.label), wp.label, wp.strategies, wp.inferral)
+    answers.add(bool(s.has_specification()))  # final poll (postcondition)
     sh = m_ruledb.shadow_of(db)
     comp, rd, pruned, root = sh.expected_pruned(s.start_label, case["iterative"])
     root_in_bigger = any(c == root and l != s.start_label for l, c in comp.items())
